@@ -17,6 +17,7 @@ META = {
     "not_decided": "that UnEscape's cursor arithmetic selects the right four digits for every input (bounds are C05's)",
     "assumptions": ["a four-digit hex value is < 0x10000", "Char_T has the width its specialisation selects"],
 }
+META["explanation"] += " " + 'TB-utf additionally: the dispatcher Unicode::ToUTF forwards its code point to the encoder unchanged; TB-recombine follows locals of the pairing block.'
 
 UNICODE_MAX = 0x10FFFF
 
@@ -167,6 +168,18 @@ def summarise(fn, param, lo, hi, width):
 def rule_utf(ctx, m):
     r = Rule("TB-utf", "every path of UnicodeToUTF::ToUTF equals the reference encoding form on its interval (bit-level domain)", floor=7)
     fns = m.fns("Qentem::Unicode::UnicodeToUTF::ToUTF", pattern=True)
+    # the dispatcher in front of the three encoders hands its code point on unchanged
+    for dsp in [g for g in m.fns("Qentem::Unicode::ToUTF", pattern=True, required=False) if not g.inst]:
+        ctx.note_fn(dsp)
+        cp = dsp.params[0]
+        writes = [dsp.text(x)[:50] for x in dsp.walk() if dsp.nodes[x]["k"] in ("BinaryOperator", "CompoundAssignOperator", "UnaryOperator") and
+                  (dsp.nodes[x].get("op", "").endswith("=") and dsp.nodes[x]["op"] not in ("==", "!=", "<=", ">=") or dsp.nodes[x].get("op") in ("++", "--")) and
+                  dsp.nodes[dsp.strip(dsp.nodes[x]["ch"][0])].get("d") == cp["d"]]
+        cs_ = [c for c in astq.calls(dsp) if (dsp.call_simple_name(c) or "") == "ToUTF"]
+        fwd = len(cs_) == 1 and dsp.nodes[dsp.strip(dsp.call_args(cs_[0])[0])].get("d") == cp["d"]
+        branches = astq.nodes_of(dsp, ("IfStmt", "SwitchStmt", "ConditionalOperator", "WhileStmt", "ForStmt", "DoStmt"))
+        r.ob(dsp.q, "dispatcher", fwd and not writes and not branches, "forwards `%s` to the encoder of sizeof(Char_T) %s" % (cp["n"], "unchanged" if (fwd and not writes and not branches) else
+             "but first rewrites it (%s) or branches on it: code points are altered before they are encoded" % (writes or "control flow")), "Include/Unicode.hpp:%d" % dsp.line)
     seen = set()
     for f in fns:
         ctx.note_fn(f)
@@ -358,8 +371,8 @@ def rule_surrogate(ctx, m):
         n = ue.nodes[i]
         if n["k"] == "DeclStmt":
             for d in n["decls"]:
-                if d.get("init", -1) >= 0 and any(ue.call_simple_name(c) == "HexStringToNumber" for c in astq.calls(ue, None, d["init"])):
-                    code_d = d
+                if code_d is None and d.get("init", -1) >= 0 and any(ue.call_simple_name(c) == "HexStringToNumber" for c in astq.calls(ue, None, d["init"])):
+                    code_d = d      # the first one: the four digits right after \\u
     if code_d is None:
         raise AnalysisBroken("UnEscape: the local receiving the first four hex digits was not found")
     # the if that sends non-surrogates straight to ToUTF
@@ -407,28 +420,36 @@ def rule_surrogate(ctx, m):
             for i in range(10, 16):
                 hi.known[i] = (0xD800 >> i) & 1
             cur = Val(hi.bits())
-            lo_used = False
+            env = {}
+
+            def ev(x):
+                x = ue.strip(x)
+                xn = ue.nodes[x]
+                if "cv" in xn and xn["k"] != "DeclRefExpr":
+                    return Val.const(xn["cv"])
+                if xn["k"] == "DeclRefExpr" and xn.get("d") == code_d["d"]:
+                    return cur
+                if xn["k"] == "DeclRefExpr" and xn.get("d") in env:
+                    return env[xn["d"]]
+                if xn["k"] in ("CallExpr",) and ue.call_simple_name(x) == "HexStringToNumber":
+                    return Val(Var("lo", 0, 0xFFFF).bits())
+                if xn["k"] == "BinaryOperator":
+                    return bitsym.binop(xn["op"], ev(xn["ch"][0]), ev(xn["ch"][1]))
+                if xn["k"] in ("CXXFunctionalCastExpr", "CXXStaticCastExpr", "CStyleCastExpr", "InitListExpr", "CXXUnresolvedConstructExpr") and len(xn.get("ch", [])) == 1:
+                    return ev(xn["ch"][0])
+                raise Unrecognised(ue.text(x))
             for s in ue.nodes[blk]["ch"]:
                 sn = ue.nodes[s]
                 if s == par.get(second[0]) or second[0] in list(ue.walk(s)):
                     break
+                if sn["k"] == "DeclStmt":
+                    for d in sn["decls"]:
+                        if "d" in d and d.get("init", -1) >= 0 and d.get("tk") in ("uint", "sint"):
+                            env[d["d"]] = ev(d["init"])
+                    continue
                 if sn["k"] in ("BinaryOperator", "CompoundAssignOperator"):
                     lhs = ue.nodes[ue.strip(sn["ch"][0])]
                     if lhs["k"] == "DeclRefExpr" and lhs.get("d") == code_d["d"]:
-                        def ev(x):
-                            x = ue.strip(x)
-                            xn = ue.nodes[x]
-                            if "cv" in xn and xn["k"] != "DeclRefExpr":
-                                return Val.const(xn["cv"])
-                            if xn["k"] == "DeclRefExpr" and xn.get("d") == code_d["d"]:
-                                return cur
-                            if xn["k"] in ("CallExpr",) and ue.call_simple_name(x) == "HexStringToNumber":
-                                return Val(Var("lo", 0, 0xFFFF).bits())
-                            if xn["k"] == "BinaryOperator":
-                                return bitsym.binop(xn["op"], ev(xn["ch"][0]), ev(xn["ch"][1]))
-                            if xn["k"] in ("CXXFunctionalCastExpr", "CXXStaticCastExpr", "CStyleCastExpr") and xn.get("ch"):
-                                return ev(xn["ch"][0])
-                            raise Unrecognised(ue.text(x))
                         rhs = ev(sn["ch"][1])
                         if sn["k"] == "BinaryOperator" and sn["op"] == "=":
                             cur = rhs
